@@ -615,7 +615,7 @@ def replay(rj):
             o = _ending_case((rj["scenario"], rj["opi"], rj["compound"], ninja, vcmd))
             o.pop("scenario_json", None)
         elif rj["kind"] == "signal-outside-wait":
-            o = _signal_outside_wait_case((rj["signal"], ninja))
+            o = _signal_outside_wait_case((rj["signal"], ninja, rj.get("variant", 0)))
         elif rj["kind"] == "signal":
             o = _signal_case((rj["scenario"], rj["wait"], rj["signal"], rj["partial"], ninja, vcmd, nx, rj.get("delivery", "process")))
         else:
@@ -640,13 +640,31 @@ default b
 """
 
 
+# The same with a second command whose pipe is at EOF by the time ninja polls again: ppoll() then reports the descriptor
+# and does not deliver the signal; ninja finds it with sigpending() -- and must not leave it pending (it would be
+# delivered, with the default action, when the signal mask is restored on the way out).
+OUTSIDE_WAIT_MANIFEST_2 = """rule detach
+  command = exec >/dev/null 2>&1; sleep 1.2; touch $out
+rule slow
+  command = sleep 0.7; touch $out
+rule quick
+  command = touch $out
+build a: detach
+build c: slow
+build b: quick a c
+default b
+"""
+
+
 def _signal_outside_wait_case(args):
-    signame, ninja = args
+    signame, ninja = args[:2]
+    manifest = OUTSIDE_WAIT_MANIFEST_2 if len(args) > 2 and args[2] else OUTSIDE_WAIT_MANIFEST
     root = tempfile.mkdtemp(prefix="rbsig.", dir=rb.SHM)
-    out = {"signal": signame, "scenario": "signal_outside_wait", "wait": -1, "partial": False, "problems": []}
+    out = {"signal": signame, "scenario": "signal_outside_wait" + ("_descriptor_ready" if manifest is OUTSIDE_WAIT_MANIFEST_2 else ""),
+           "wait": -1, "partial": False, "problems": [], "variant": 1 if manifest is OUTSIDE_WAIT_MANIFEST_2 else 0}
     try:
         with open(os.path.join(root, "build.ninja"), "w") as f:
-            f.write(OUTSIDE_WAIT_MANIFEST)
+            f.write(manifest)
         p = subprocess.Popen([ninja, "-j2"], cwd=root, stdout=subprocess.PIPE, stderr=subprocess.STDOUT, start_new_session=True)
         time.sleep(0.5)
         os.kill(p.pid, getattr(signal, signame))
@@ -673,15 +691,15 @@ def _signal_outside_wait_case(args):
 
 def signal_outside_wait():
     ninja, _ = rb.build_tools()
-    with multiprocessing.Pool(3) as pool:
-        return pool.map(_signal_outside_wait_case, [(s, ninja) for s in ("SIGINT", "SIGTERM", "SIGHUP")])
+    with multiprocessing.Pool(6) as pool:
+        return pool.map(_signal_outside_wait_case, [(s, ninja, v) for s in ("SIGINT", "SIGTERM", "SIGHUP") for v in (0, 1)])
 
 
 def c07_process_level(c):
     for p in signal_outside_wait():
         if p["problems"]:
             c.violation("C07/process-level %s: %s" % (p["signal"], "; ".join(p["problems"])),
-                        {"engine": "rb", "kind": "signal-outside-wait", "signal": p["signal"], "problems": p["problems"]})
+                        {"engine": "rb", "kind": "signal-outside-wait", "signal": p["signal"], "variant": p.get("variant", 0), "problems": p["problems"]})
     r = signals(c.tier)
     scs = {s["name"]: s for s in templates_c07.templates(c.tier)}
     seen = set()
